@@ -629,7 +629,9 @@ def bounded(rep, tier):
     fails = {}
     cats = plans.catalogs()
     for qname, sql in plans.generated_queries(tier):
-        for cname in ('names', 'dicts'):
+        # catalogs whose default namespace is a data integration / absent: name resolution has one more case there (quick: the families about names)
+        more = ('default-int1', 'no-default') if (tier != 'quick' or qname.startswith(('three-part', 'single-join-qualified', 'cte', 'subselect', 'model-version', 'ts-version', 'case-qualifier', 'single-int'))) else ()
+        for cname in ('names', 'dicts') + more:
             n += 1
             sc = {'source': f'gen:{cname}:{qname}', 'sql': sql, 'catalog': cname}
             try:
@@ -647,8 +649,16 @@ def bounded(rep, tier):
             if isinstance(orig, ast.Select) and orig.cte:
                 ctes = {c.name.parts[-1] for c in orig.cte}
             dml_targets = {id(x.table) for pth, x in __import__('vlib.corpus', fromlist=['x']).walk_nodes(orig) if isinstance(x, (ast.Insert, ast.Update, ast.Delete))}
+            # a name inside the body of a CTE refers to an EARLIER CTE of that name only (a CTE does not see itself): `WITH t AS (SELECT * FROM t)` reads the table t
+            visible = {}
+            if isinstance(orig, ast.Select) and orig.cte:
+                earlier = set()
+                for c_ in orig.cte:
+                    for t_ in tables_of(c_.query):
+                        visible[id(t_)] = set(earlier)
+                    earlier.add(c_.name.parts[-1])
             for t in tables_of(orig):
-                if len(t.parts) == 1 and t.parts[0] in ctes:
+                if len(t.parts) == 1 and t.parts[0] in visible.get(id(t), ctes):
                     continue
                 if id(t) in dml_targets:
                     continue                      # DML targets are named in the DML step, not fetched
@@ -669,10 +679,17 @@ def bounded(rep, tier):
             if got != want:
                 fails.setdefault(f'C10.bounded.integrations.{qname.split(":")[0]}', (sql, f'[{cname}] fetches from {sorted(map(str, got))}, tables resolve to {sorted(map(str, want))}'))
             # (a') no fetch query mentions a table that belongs to another integration
+            # (a schema of integration X may be spelled like another database: `X.Y.tbl` is the table Y.tbl of X)
+            residual = {}
+            for t in tables_of(orig):
+                if len(t.parts) > 2 and isinstance(t.parts[0], str) and t.parts[0].lower() in dbs:
+                    residual.setdefault(t.parts[0].lower(), set()).add(tuple(str(p_).lower() for p_ in t.parts[1:]))
             for st_ in fetch_steps:
                 if st_.query is not None:
                     for t in tables_of(st_.query):
                         first = t.parts[0].lower() if len(t.parts) > 1 else None
+                        if tuple(str(p_).lower() for p_ in t.parts) in residual.get(str(st_.integration).lower(), ()):
+                            continue
                         if first in dbs and first != str(st_.integration).lower():
                             fails.setdefault(f'C10.bounded.foreign-table.{qname.split(":")[0]}', (sql, f'[{cname}] the query sent to {st_.integration!r} mentions {t.to_string()!r}: `{str(st_.query)[:140]}`'))
             # (b) letter case of qualifiers does not matter
